@@ -55,20 +55,27 @@ func selectByFile(pkgs []*packages.Package, file string) *packages.Package {
 	return nil
 }
 
+// commonPrefix returns the deepest directory which is an ancestor of
+// (or equal to) every directory in [paths], or an empty string
+// if there is none.
 func commonPrefix(paths []string) string {
-	index := 0
-	first := paths[0]
-	for ; index < len(first); index++ {
-		c := first[index]
-		for _, other := range paths {
-			if index >= len(other) || other[index] != c {
-				// no more prefix
-				return first[:index]
+	if len(paths) == 0 {
+		return ""
+	}
+	sep := string(filepath.Separator)
+	out := paths[0]
+	for _, other := range paths {
+		// walk up until [out] contains [other] : comparing bytes is not enough,
+		// since /a/foo is not a parent of /a/foo1
+		for out != other && !strings.HasPrefix(other, strings.TrimSuffix(out, sep)+sep) {
+			parent := filepath.Dir(out)
+			if parent == out { // no common root (distinct volumes)
+				return ""
 			}
+			out = parent
 		}
 	}
-
-	return first
+	return out
 }
 
 // LoadSources returns for each source file, the `*packages.Package` containing it.
